@@ -191,6 +191,22 @@ class Program:
         r = self.r
         if self.queued:
             return self.queued.pop(0)
+        if self.pool and r.random() < 0.03:
+            # two URLs that are equal only through a normalisation rule ('' == '/' under an authority) or plainly equal: compared, then
+            # BOTH used in ways that memoise something (pickled, copied, hashed, ordered, fully read), then compared again
+            self.fresh += 1
+            tag = f"eq{self.pid}-{self.fresh}"
+            sa, sb = r.choice([(f"http://{tag}.example?x=1#f", f"http://{tag}.example/?x=1#f"), (f"http://{tag}.example", f"http://{tag}.example/"),
+                               (f"//{tag}.example#f", f"//{tag}.example/#f"), (f"http://{tag}.example/p", f"http://{tag}.example/p"), (f"foo://u@{tag}:1", f"foo://u@{tag}:1/")])
+            n0 = len(self.pool)
+            uses = [{"op": "copy", "x": n0, "how": r.choice(["pickle2", "pickle5", "copy", "deepcopy"])}, {"op": "copy", "x": n0 + 1, "how": r.choice(["pickle0", "pickle4", "copy", "deepcopy"])},
+                    {"op": "read", "x": n0, "a": "hash"}, {"op": "read", "x": n0 + 1, "a": "hash"}, {"op": "cmp", "x": n0, "y": n0 + 1, "rel": "lt"}, {"op": "cmp", "x": n0 + 1, "y": n0, "rel": "le"},
+                    {"op": "readall", "x": n0, "seed": r.randrange(1 << 30)}, {"op": "readall", "x": n0 + 1, "seed": r.randrange(1 << 30)}, {"op": "read", "x": n0, "a": "getstate"},
+                    {"op": "read", "x": n0 + 1, "a": "getstate"}]
+            r.shuffle(uses)
+            after = [{"op": "cmp", "x": n0, "y": n0 + 1, "rel": rel} for rel in ("eq", "ne", "lt", "gt", "le", "ge")] + [{"op": "cmp", "x": n0 + 1, "y": n0, "rel": "eq"}]
+            self.queued += [{"op": "ctor", "s": sb, "encoded": r.random() < 0.3}, {"op": "cmp", "x": n0, "y": n0 + 1, "rel": "eq"}] + uses[: r.randint(3, len(uses))] + after
+            return {"op": "ctor", "s": sa, "encoded": r.random() < 0.3}
         if self.pool and r.random() < 0.08:
             # the same text through two routes whose cache keys must differ, back to back and in either order
             kind = r.random()
